@@ -725,9 +725,6 @@ func genOpts() *pgen.Opts {
 		o.MaxRep = 14
 		o.ClassRep = ""
 	}
-	// unknown-field numbers must be unknown to the decoder, which sees
-	// declared numbers truncated to 16 bits: keep them distinct mod 65536
-	o.NoModCollide, o.ClassModCollide = true, ""
 	return o
 }
 
